@@ -289,6 +289,8 @@ func (dec *Decoder) DiscardValue() bool {
 	var s string
 	if dec.String(&s) {
 		return true
+	} else if dec.err != nil {
+		return false // malformed literal
 	}
 
 	isList, err := dec.List(func() error {
@@ -425,6 +427,11 @@ func (dec *Decoder) ExpectAString(ptr *string) bool {
 	}
 	if dec.Literal(ptr) {
 		return true
+	}
+	if dec.err != nil {
+		// The opening brace of a malformed literal has been consumed: what
+		// follows is not an atom
+		return false
 	}
 	// TODO: accept unquoted resp-specials
 	return dec.ExpectAtom(ptr)
